@@ -162,4 +162,16 @@ CHECKS = {
         note=_NOTE + " 'No access outside its objects' is decided only as far as ASan/UBSan make the access an observable event: "
              "over-reads inside a live object or frame and uninitialised reads are not observable here.",
         technique="TLC model checking of the allocation-failure discipline + TLC trace validation of allocation-fault replays and of sanitizer-build executions (crash/timeout events)"),
+    "C04": dict(
+        text="Relational, over ghost logarithms: the driver builds P_i = [a_i]G1, Q_i = [b_i]G2 and evaluates a pairing; TLC first "
+             "VERIFIES that the logged points are those multiples (lib/Curve over F_p, lib/CurveX over F_p2 - definitions "
+             "model-checked by MCCurve/MCTower) and then requires g = g0^(sum a_i b_i mod r) in F_p12 computed by generic "
+             "quotient-ring arithmetic (lib/Tower, never gt_exp), where g0 is the value on the generators at the start of the "
+             "segment, with g0 != 1 and g0^r = 1. This contains bilinearity in both slots, identity in either slot, "
+             "representation independence (projective inputs), and multi-pairings (lengths 0..4, identities at arbitrary "
+             "positions) for the optimal ate (pc_map / pp_map_oatep_k12 / sim), Tate and Weil variants on BN-P256 and SM9-P256 "
+             "(thorough: BLS12-381). Scalars: 0, 1, 2, 3, -1, -2, r, r+-1, r-2, 2r, small and full-size random.",
+        ref="§4 C04",
+        note=_NOTE + " Equality with a textbook Miller-loop value is not claimed (the property does not ask for it). The k = 8/16/18/24/48 families are not built.",
+        technique="TLC trace validation of recorded pairing evaluations against the bilinear relation over ghost logarithms (Tower/CurveX arithmetic)"),
 }
